@@ -5,6 +5,7 @@ import (
 	"encoding/hex"
 	"fmt"
 	"reflect"
+	"runtime"
 	"strconv"
 	"math/big"
 	"strings"
@@ -15,6 +16,7 @@ import (
 	"github.com/ovh/kmip-go/payloads"
 	"github.com/ovh/kmip-go/ttlv"
 
+	"verifharness/internal/model"
 	"verifharness/internal/report"
 	"verifharness/internal/schema"
 	"verifharness/internal/tree"
@@ -632,6 +634,9 @@ func planDecCase(ctx *Ctx, s *schema.Schema, tg planTarget, b []byte, origin str
 }
 
 func runPlan(ctx *Ctx) {
+	// plan.enc / plan.dec / plan.conforms are answered by pure functions of the line: the model side (3/4 of the
+	// engine's time) is spread over several model processes
+	model.Workers = max(1, min(4, runtime.NumCPU()/2))
 	s := getSchema()
 	if len(s.Problems) > 0 {
 		ctx.Res.Fail("schema extraction problems: " + strings.Join(s.Problems, "; "))
